@@ -439,14 +439,11 @@ theorem clRandomize_verifies_aux (isPrime : Nat → Bool) (pk : PublicKey) (sig 
     (ms : List Int) (rr : Int)
     (hN : pk.n = n) (hn : 1 < n) (hz0 : 0 ≤ pk.z) (hz1 : pk.z < pk.n)
     (hz : IsUnit (pk.z : ZMod n)) (hs : IsUnit (pk.s : ZMod n))
-    (hkp : sig.keyshareP = none)
     (h : clVerifyWith isPrime pk sig ms = .ok true) :
     clVerifyWith isPrime pk (clRandomize pk sig rr) ms = .ok true := by
   obtain ⟨hint, hprime, _⟩ := clVerifyWith_ok_true isPrime pk sig ms h
   have hany := clVerifyWith_ok_true_guard isPrime pk sig ms h
   obtain ⟨r, hr, hua, hub, heq⟩ := clVerifyWith_units isPrime pk sig ms hN hn hz hs h
-  rw [hkp] at hub heq
-  simp only [blockWithKeyshare] at hub heq
   have hn0 : 0 < n := by omega
   have heq' := Alg.cl_randomize rr heq
   -- the randomised signature
@@ -464,7 +461,7 @@ theorem clRandomize_verifies_aux (isPrime : Nat → Bool) (pk : PublicKey) (sig 
   rw [this]
   congr 1
   rw [decide_eq_true_iff]
-  simp only [clRandomize, blockWithKeyshare]
+  simp only [clRandomize]
   rw [hN] at hz1 ⊢
   apply eq_of_cast_eq hz0 hz1 (emod_range hn0 _).1 (emod_range hn0 _).2
   rw [cast_emod, ← zunit_val hz, ← heq']
